@@ -37,10 +37,14 @@ class FuncInfo:
         self.qualname = (f"{module.name}.{cls.name}.{node.name}" if cls else f"{module.name}.{node.name}")
         self.decorators = []
         for d in node.decorator_list:
+            if isinstance(d, ast.Call):
+                d = d.func
             if isinstance(d, ast.Name):
                 self.decorators.append(d.id)
             elif isinstance(d, ast.Attribute):
                 self.decorators.append(d.attr)
+            else:
+                self.decorators.append("<decorator>")
         self.is_static = "staticmethod" in self.decorators
         self.is_classmethod = "classmethod" in self.decorators
         self.is_property = "property" in self.decorators
